@@ -82,7 +82,7 @@ impl FeatureFromStrTrait {
                 let mut matches = Vec::new();
                 for (_, (v, name)) in &derive.values {
                     matches.push(quote! {
-                        #name => Ok(#ident_enum::#v),
+                        #name => Ok(Self::#v),
                     });
                 }
                 quote! {
@@ -111,7 +111,7 @@ impl FeatureFromStrTrait {
                                 for (i, n) in Self::#ident_table_name.iter().enumerate() {
                                     if s == *n {
                                         // Safety: the number is known to be a valid enum
-                                        return Ok(unsafe { ::core::mem::transmute((i as #repr).wrapping_add(#ident_enum::#ident_min as #repr)) });
+                                        return Ok(unsafe { ::core::mem::transmute((i as #repr).wrapping_add(Self::#ident_min as #repr)) });
                                     }
                                 }
                                 Err(())
